@@ -1609,7 +1609,7 @@ func c18generate(c *h.Ctx, yield func(*h.Case)) {
 		pool := []string{"", "plain", "with \"quotes\"", "back\\slash", "trailing backslash\\", "\\\"", "new\nline", "cr\rlf\r\n", "tab\there", "\x01\x02\x1f control", "del\x7f",
 			"ünïcödé 日本語", "emoji 🎉 done", "# not a comment", "key = \"value\"", "[[servers]]", "'single'", "\\u0041 is not an escape here", "\\n", " leading and trailing ",
 			strings.Repeat("long ", 200), "\"", "\\", "\n", "a\\\\b\\", "percent %s %d"}
-		for i := 0; i < c.Pick(60, 300); i++ {
+		for i := 0; i < b7Pick(c, 60, 300) && !b7SearchOver(); i++ {
 			var sb strings.Builder
 			su := "Ed25519"
 			if g.r.Intn(5) == 0 {
@@ -1643,7 +1643,7 @@ func c18generate(c *h.Ctx, yield func(*h.Case)) {
 	// `"` in a quoted key) - model and code agree on what happens, the round-trip oracle leaves it out.
 	{
 		odd := []string{"c18n.dot", "c18n space", "c18n\"quote", "c18nünï", "c18n-dash_1", "c18n'apos", "c18n#hash", "c18n]br", "c18n=eq", "c18n日本", "c18n\\back", "c18n\\quirk", "c18n\ttab"}
-		for i := 0; i < c.Pick(12, 60); i++ {
+		for i := 0; i < b7Pick(c, 12, 60) && !b7SearchOver(); i++ {
 			perm := g.r.Perm(len(odd))
 			names := []string{}
 			for _, j := range perm[:1+g.r.Intn(4)] {
@@ -1782,15 +1782,15 @@ func c18generate(c *h.Ctx, yield func(*h.Case)) {
 		c.Count("kind=registry-history")
 		yield(cs)
 	}
-	for i := 0; i < c.Pick(24, 120); i++ {
+	for i := 0; i < b7Pick(c, 24, 120) && !b7SearchOver(); i++ {
 		churn(i%2 == 1)
 	}
-	maxSvc := c.Pick(4, 6)
-	total := c.Pick(9000, 60000)
-	for i := 0; i < total; i++ {
+	maxSvc := b7Pick(c, 4, 6)
+	total := b7Pick(c, 9000, 60000)
+	for i := 0; i < total && !b7SearchOver(); i++ {
 		n++
-		child := i%c.Pick(10, 6) == 0
-		reads := c.Pick(8, 20)
+		child := i%b7Pick(c, 10, 6) == 0
+		reads := b7Pick(c, 8, 20)
 		if i%50 == 0 {
 			reads = 50
 		}
@@ -1823,7 +1823,7 @@ func c18generate(c *h.Ctx, yield func(*h.Case)) {
 			emitPrivate("private:"+c18tagClass(tag), text, reads, child)
 			resaveHistory = ""
 		}
-		if i%c.Pick(60, 40) == 0 {
+		if i%b7Pick(c, 60, 40) == 0 {
 			// big groups: 8..24 servers of one suite, slow service keys on the first servers
 			g.forceN = 8 + g.r.Intn(17)
 			su := "Ed25519"
@@ -1836,7 +1836,7 @@ func c18generate(c *h.Ctx, yield func(*h.Case)) {
 			if g.r.Intn(3) == 0 {
 				ws = su
 			}
-			emitGroup("group-big:"+su, text, reads, i%c.Pick(120, 80) == 0, ws)
+			emitGroup("group-big:"+su, text, reads, i%b7Pick(c, 120, 80) == 0, ws)
 		}
 	}
 }
